@@ -8,7 +8,7 @@ import (
 	"strings"
 )
 
-var c13Shapes = []string{"p1", "p2", "p3", "p4", "p5"}
+var c13Shapes = []string{"p1", "p10", "p11", "p2", "p3", "p4", "p5"}
 
 // customC13 runs the three families: history independence (plain build),
 // concurrent instances under the race detector (real bytebufferpool), and
@@ -90,6 +90,7 @@ func customC13(r *Run) ([]Crash, error) {
 	crashes = append(crashes, cr...)
 	r.Only = saved
 	r.M.Counters["shadow_allocator_processes"] += 6
+	r.compareDigests()
 	return crashes, nil
 }
 
@@ -133,4 +134,33 @@ func (r *Run) collectRaceReports(logBase string) {
 				Detail: "the race detector reported a data race between separate writer/reader instances:\n" + clipStr(blk, 3000), Extra: map[string]interface{}{"mode": "conc"}})
 		}
 	}
+}
+
+// compareDigests: every process computed the bytes of every history after a different prior
+// process history (and with different neighbours); one history must have one digest.
+func (r *Run) compareDigests() {
+	byID := map[string]map[string]bool{}
+	for e := range r.M.Sets["history_digests"] {
+		i := strings.LastIndex(e, "=")
+		if i < 0 {
+			continue
+		}
+		id, dg := e[:i], e[i+1:]
+		if byID[id] == nil {
+			byID[id] = map[string]bool{}
+		}
+		byID[id][dg] = true
+	}
+	r.M.Counters["histories_compared_across_processes"] = int64(len(byID))
+	for id, dgs := range byID {
+		if len(dgs) > 1 {
+			var l []string
+			for d := range dgs {
+				l = append(l, d)
+			}
+			r.M.Violations = append(r.M.Violations, Violation{Prop: "C13", Key: "mode=indep;kind=bytes_differ_between_processes", Case: "indep/" + id,
+				Detail: fmt.Sprintf("history %s produced %d different byte streams in processes that had executed other histories before it (digests %v): the output depends on what other instances did earlier in the process", id, len(dgs), l)})
+		}
+	}
+	delete(r.M.Sets, "history_digests")
 }
